@@ -20,11 +20,17 @@ type routedProgram struct {
 }
 
 func loadRouted(r *Report, rulePrefix string, opt S3Options) (*S3, []*routedProgram) {
+	gdir, gclean := thoroughCorpusFor(r, rulePrefix)
+	if opt.ExtraCorpus == "" {
+		opt.ExtraCorpus = gdir
+	}
 	s3, err := BuildS3(opt)
 	if err != nil {
+		gclean()
 		r.Break("S3 build: %v", err)
 		return nil, nil
 	}
+	s3.cleanups = append(s3.cleanups, gclean)
 	s3.reportUnusable(r, rulePrefix+"/program-analysable")
 	var out []*routedProgram
 	for _, p := range s3.Usable() {
